@@ -18,9 +18,12 @@ RULE = ("a case is one expression tree over the literal/operator vocabulary of t
         "0-5 constant declarations it may refer to; observable: printed value parsed back, assertion outcome, Constant.value, "
         "capacity, extent, or the rejection class; non-trivial = at least two operators and the model yields a value or a "
         "rejection below the root; distinct = by hash of the canonical case")
-THEOREMS_NOTE = ("C04_eval_exact: the dispatch mechanism computes the Specification's table (sem); C04_precedence: the rendered "
-                 "tokens derive the tree by the grammar's rules; C04_literals: literal decoding is positional/decimal/escape meaning")
-TRUSTED = ["lexing of the text into tokens by the PEG engine and unambiguity of the grammar are sampled, not proved",
+THEOREMS_NOTE = ("C04_eval_exact: the dispatch mechanism computes the Specification's table (sem); C04_precedence / "
+                 "C04_precedence_roundtrip: the rendered tokens derive the tree by the grammar's rules and a deterministic PEG model "
+                 "reads them back as exactly that tree; C04_rejects*: rejected iff outside the table; C04_literals: literal "
+                 "decoding is positional/decimal/escape meaning")
+TRUSTED = ["lexing of the text into tokens and that parsimonious implements the PEG semantics of the token-level parser model "
+           "(Expr/Parser.v, proven sound w.r.t. the grammar relation and proven to invert the renderer) are sampled, not proved",
            "unicodedata NFC normalisation in String equality is not modelled (generated strings are NFC-stable)",
            "the parser of the @print value format (a/b, true/false, Python string repr, {..}) in this module"]
 ASSUMPTIONS = ["powers with non-integer exponents and min/max over two or more sets are 'unspecified' in the model: only "
@@ -31,8 +34,10 @@ EXPLANATION = ("theorems quantify over all expression trees; the correspondence 
 LEVEL_TEXT = ("Machine-checked theorems (Coq, closed under the global context): the operator dispatch of pydsdl (per-class methods, "
               "automatic operand swapping, element-wise set application, Python Fraction mod/pow formulas) computes exactly the "
               "Specification's operator tables in exact rational arithmetic for every expression tree; the rendering of any tree "
-              "is derivable, by the grammar's precedence rules, to that tree only through the intended grouping; literal decoding "
-              "equals positional / decimal-fraction / escape meaning. Tied to /repo by comparing delivered values on generated texts.")
+              "is derivable by the grammar's precedence rules to that tree, and a deterministic parser with PEG semantics (sound "
+              "w.r.t. the grammar) reads it back as exactly that tree; exactly the operand combinations outside the table are "
+              "rejected; literal decoding equals positional / decimal-fraction / escape meaning. Tied to /repo by comparing "
+              "delivered values on generated texts.")
 LEVEL_NOTE = "Trusted: Coq kernel + vm_compute; PEG lexing/unambiguity and NFC normalisation are sampled only."
 TECHNIQUE = "Coq proof (structural induction over expression trees, case analysis over operand classes) + vm_compute correspondence"
 
